@@ -924,8 +924,14 @@ def known_witnesses(runner, prop, r=None):
 
 def gen_flood(runner, tier, seed):
     r = rng_for(seed, "C09")
-    s = runner.session(cfg_plain(), "flood")
-    n = 3000 if tier == "quick" else 200000
+    # thorough: several independent floods (TLC follows one behaviour for at most 65535 states, and the
+    # model's cookie map grows with every new flow), validated in parallel
+    for rd in range(1 if tier == "quick" else 10):
+        _flood_round(runner, r, 3000 if tier == "quick" else 20000, rd)
+
+
+def _flood_round(runner, r, n, rd):
+    s = runner.session(cfg_plain(key=KEYS[rd % 3]), "flood %d" % rd)
     p4, p6 = peer4(), peer6()
     flows = [Flow(r.choice([p4, p6]), 3000 + i, 80, r.randrange(1 << 32)) for i in range(6)]
     sent_valid = 0
